@@ -29,7 +29,7 @@ def opFut : ClientOp → Nat
 /-- the `Future` class is not thread-safe for concurrent clients of ONE object (`_joinable`, `_aborting` are plain
     members): the property is about futures each used by one client thread.  Future ids are < 16. -/
 def Config.WellFormed (cfg : Config) : Prop :=
-  (∀ i j (si sj : List ClientOp), cfg.scripts[i]? = some si → cfg.scripts[j]? = some sj → i ≠ j →
+  (∀ (i j : Nat) (si sj : List ClientOp), cfg.scripts[i]? = some si → cfg.scripts[j]? = some sj → i ≠ j →
       ∀ a ∈ si, ∀ b ∈ sj, opFut a ≠ opFut b) ∧
   (∀ sc ∈ cfg.scripts, ∀ a ∈ sc, opFut a < 16)
 
